@@ -371,9 +371,15 @@ impl AstVisitor<'_> {
                 for variable in &closure.variables {
                     state.mark_identifier_pending_usage(&variable.node, &variable.span);
                 }
+                // The closure's result is used by the function; what the surrounding level expects
+                // (e.g. the elements of an array that follow this call) is not ours to change.
+                let expecting_result = state.expecting_result.get(&state.level).copied();
                 state.mark_level_as_expecting_result();
                 self.visit_block(&closure.block, state);
-                state.mark_level_as_not_expecting_result();
+                match expecting_result {
+                    Some(expecting) => state.expecting_result.insert(state.level, expecting),
+                    None => state.expecting_result.remove(&state.level),
+                };
             } else if state.is_unused() {
                 state.append_diagnostic(
                     format!("unused result for function call `{function_call}`"),
